@@ -324,6 +324,9 @@ func (tsbr *TimeSeriesBlockReader) GetTimeSeriesIterator(tsid uint64) (*compress
 			found, tsIDX, offset = getOffsetFromTsoFile(tsbr.tsoVersion, 0, tsbr.lastTSidx, uint32(tsbr.numTSIDs), tsid, tsbr.rawTSO)
 		} else if tsid > tsbr.lastTSID {
 			found, tsIDX, offset = getOffsetFromTsoFile(tsbr.tsoVersion, tsbr.lastTSidx, uint32(tsbr.numTSIDs-1), uint32(tsbr.numTSIDs), tsid, tsbr.rawTSO)
+		} else {
+			// same series as the previous lookup
+			found, tsIDX, offset = getOffsetFromTsoFile(tsbr.tsoVersion, tsbr.lastTSidx, tsbr.lastTSidx, uint32(tsbr.numTSIDs), tsid, tsbr.rawTSO)
 		}
 	} else {
 		found, tsIDX, offset = getOffsetFromTsoFile(tsbr.tsoVersion, 0, uint32(tsbr.numTSIDs-1), uint32(tsbr.numTSIDs), tsid, tsbr.rawTSO)
